@@ -261,6 +261,17 @@ func c10Worker(args []string) {
 			rep.Calls++
 		}
 	}
+	// unusually large (but valid) values: million-element ranges, megabyte strings, deep
+	// recursion - run without the harness's allocation guard
+	marker("CALL/large-values/0")
+	for i, script := range []string{`return len(1..1200000);`, `function f(n) { return len(0..n); } return f(1300000);`, `n = 0; foreach e in -600000..600000 { n = e; } return n;`,
+		`s = "0123456789abcdef"; i = 0; while (i < 17) { s = s + s; i++; } return [len(s), len(upper(s)), len(replace(s, /f/, "")), s ~= /ff$/];`,
+		`function down(n) { if (n <= 0) { return 0; } return 1 + down(n - 1); } return down(9999);`, `a = 1..300000; h = {}; return [len(reverse(a)), len(string(a)), 299999 in a, max(1, 2)];`} {
+		if evr, err := eng.New(script, eng.Options{NoHook: true, NoOptimize: i%2 == 0}); err == nil {
+			evr.Exec(map[string]interface{}{"Path": canary})
+			rep.Calls++
+		}
+	}
 	// scripts stopped by their context (expired before the run, cancelled in mid-run, inside
 	// a user function): an error comes back, and that is all that happens
 	marker("CALL/stopped-by-context/0")
